@@ -32,7 +32,7 @@ RULE = ("case = (text, offset) at the interface / (program, layout) for the prob
         "statement and >= 1 tab or leading text; distinct by text.")
 ASSUMPTIONS = ["layouts never split or merge tokens"]
 SHARD_TIMEOUT = {"quick": 900, "thorough": 3600}
-BUDGET = {"quick": 40, "thorough": 2500}
+BUDGET = {"quick": 40, "thorough": 500}
 
 
 def shards(tier):
